@@ -65,7 +65,8 @@ def close(a, b, rtol=1e-8, atol=1e-10):
     both_nan = np.isnan(a) & np.isnan(b)
     with np.errstate(invalid="ignore"):
         same_inf = np.isinf(a) & np.isinf(b) & (np.sign(a) == np.sign(b))
-        ok = np.abs(a - b) <= atol + rtol * np.maximum(np.abs(a), np.abs(b))
+        # finite values only: inf <= inf would otherwise accept a finite value against an infinite one
+        ok = np.isfinite(a) & np.isfinite(b) & (np.abs(a - b) <= atol + rtol * np.maximum(np.abs(a), np.abs(b)))
     return bool(np.all(ok | both_nan | same_inf))
 
 
@@ -220,6 +221,9 @@ def drive(lines, timeout=600):
 # --------------------------------------------------------------------------
 def check_env():
     sys.path.insert(0, os.path.join(VERIF, "harness"))
+    # the tree under test: /repo (where /venv's editable install points anyway) or the copy named by BOB_REPO
+    sys.path.insert(0, os.path.join(REPO, "src"))
+    os.environ["PYTHONPATH"] = os.path.join(REPO, "src") + os.pathsep + os.environ.get("PYTHONPATH", "")
     import warnings
 
     warnings.filterwarnings("ignore")
@@ -250,16 +254,48 @@ class ImplError:
         return f"ImplError({self.kind}: {self.msg})"
 
 
+class DoesNotTerminate(Exception):
+    """the implementation call did not return within IMPL_TIMEOUT seconds (all inputs of the harness are tiny)"""
+
+
+IMPL_TIMEOUT = float(os.environ.get("VERIF_IMPL_TIMEOUT", "60"))
+_timeouts_seen = 0  # after the first non-terminating call of a run the limit drops to 5 s: the finding exists, the run should still end
+
+
 def impl(fn, *a, **k):
+    """Run one call of the implementation: whatever it raises is an observation (ImplError); a call that does not return
+    within IMPL_TIMEOUT seconds is observed as DoesNotTerminate instead of hanging the check (main thread only)."""
+    import signal
+    import threading
     import warnings
 
+    use_alarm = threading.current_thread() is threading.main_thread() and signal.getitimer(signal.ITIMER_REAL)[0] == 0
+
+    global _timeouts_seen
+    limit = IMPL_TIMEOUT if _timeouts_seen == 0 else min(IMPL_TIMEOUT, 5.0)
+
+    def on_alarm(signum, frame):
+        global _timeouts_seen
+        _timeouts_seen += 1
+        raise DoesNotTerminate(f"no result after {limit:.0f}s")
+
+    old = None
     try:
+        if use_alarm:
+            old = signal.signal(signal.SIGALRM, on_alarm)
+            # a check started from a thread of another Python program can inherit a signal mask in which SIGALRM is blocked
+            signal.pthread_sigmask(signal.SIG_UNBLOCK, {signal.SIGALRM})
+            signal.setitimer(signal.ITIMER_REAL, limit)
         with warnings.catch_warnings():
             warnings.simplefilter("ignore")
             with np.errstate(all="ignore"):
                 return fn(*a, **k)
     except Exception as e:  # noqa: BLE001 — whatever the code under test raises is an observation
         return ImplError(e)
+    finally:
+        if use_alarm:
+            signal.setitimer(signal.ITIMER_REAL, 0)
+            signal.signal(signal.SIGALRM, old)
 
 
 def cleanup():
